@@ -59,7 +59,7 @@ def gen_mc(ck, idx, case, reserves=True):
     ntasks = sum(len(v) for v in tprog.values())
     vf.write_cfg(cfg, constants={"Init0": init, "MaxT": maxt, "QCap": cap, "Subs": "<- MCSubs", "Prog": "<- MCProg",
                                  "Life": "<- MCLife", "MaxW": init + ntasks + 1, "SpawnReserves": reserves is not False,
-                                 "DtorJoinsAfterStop": reserves != "nodtorjoin"},
+                                 "DtorJoinsAfterStop": reserves != "nodtorjoin", "RecheckShutdown": reserves != "norecheck"},
                  invariants=INVS)
     return os.path.join(d, "MCPool.tla"), cfg
 
@@ -77,7 +77,7 @@ def run(ck):
         tla_path, cfg = gen_mc(ck, idx, case, reserves)
         return job, vf.run_tlc(tla_path, cfg, tag="C09_mc%d%s" % (idx, reserves), workers=3, lib_dirs=[SPECDIR], coverage=(reserves is True),
                                timeout=1200)
-    jobs = [(i, c, True) for i, c in enumerate(cases)] + [(0, cases[0], False), (1, cases[1], "nodtorjoin")]
+    jobs = [(i, c, True) for i, c in enumerate(cases)] + [(0, cases[0], False), (1, cases[1], "nodtorjoin"), (1, cases[1], "norecheck")]
     with cf.ThreadPoolExecutor(max_workers=5) as ex:
         results = list(ex.map(mc, jobs))
     for (idx, case, reserves), r in results:
@@ -92,6 +92,10 @@ def run(ck):
         if reserves == "nodtorjoin":
             if r.violated != "NoJoinableLeft":
                 raise vf.Infra("self-test: ThreadPool.tla with DtorJoinsAfterStop=FALSE should violate NoJoinableLeft, got %r" % r.violated)
+            continue
+        if reserves == "norecheck":
+            if r.violated not in ("StopComplete", "NoJoinableLeft", "NoStuck"):
+                raise vf.Infra("self-test: ThreadPool.tla with RecheckShutdown=FALSE should violate StopComplete, got %r" % r.violated)
             continue
         for a, (tk, gn) in r.coverage.items():
             ck.cov[a] = ck.cov.get(a, 0) + gn
@@ -116,7 +120,16 @@ def run(ck):
     lines.append("1 2 2 30000 | main=stop,join;s1=try:1:n | replay main*point:call s1*create main*sleep w1* main*join w1* main main*join s1* main*")
     #   ThreadCap (SpawnReserves=FALSE): SChk(s1) SCrit(s1) SChk(s2) SCrit(s2) SSpawn(s1) SSpawn(s2)
     lines.append("1 2 2 30000 | main=join;s1=try:1:n,count;s2=try:2:n,count | replay main*point:call s1*create s2*create s1* s2*")
-    ck.sample({"kind": "directed probe (TLC counterexample of DtorJoinsAfterStop=FALSE)", "case": lines[-2]})
+    #   StopComplete (RecheckShutdown=FALSE): SChk(s1) MDrainBegin MDrainPoll MSdSet WExitShutdown MSdPoll MJoin SCrit(s1): a submitter that
+    #   passed the lock-free checks is held right before it takes the mutex while stop() runs to completion
+    lines.append("1 2 2 30000 | main=stop,join;s1=try:1:n | replay main*point:call s1*lock main*point:call w1* main*point:call w1* main*point:call s1* main* w2* main*")
+    lines.append("1 2 2 30000 | main=stop,join;s1=enq:1:n,fut:2:n | replay main*point:call s1*lock main*point:call w1* main*point:call w1* main*point:call s1* main* w2* main*")
+    ck.sample({"kind": "directed probe (TLC counterexample of DtorJoinsAfterStop=FALSE)", "case": lines[-4]})
+    # idle exits racing submissions: a lazily growing pool (0 initial workers, at most 1) and timed waits that may expire while
+    # submitters are runnable
+    for i in range(120 if thorough else 40):
+        lines.append("0 1 2 50 | main=join;s1=try:1:n,sleep:60,try:2:n,sleep:60,try:3:n | randomt %d" % (ck.seed * 4099 + i))
+        lines.append("1 2 2 50 | main=join,count;s1=try:1:p,sleep:80,fut:2:n;s2=sleep:70,try:3:n | randomt %d" % (ck.seed * 4111 + i))
     cp = os.path.join(ck.work, "cases.txt")
     open(cp, "w").write("\n".join(lines) + "\n")
     outp = os.path.join(ck.work, "pool.ndjson")
